@@ -616,6 +616,82 @@ def k11_validation(ctx: vlib.Ctx):
             ctx.not_shown("translation validation K11", str([descr[i] for i in bad[:6]]))
 
 
+def k16_validation(ctx: vlib.Ctx):
+    """(T) the translated skeleton of the codec wrapper against the module text the real code emits."""
+    name = "K16-codec-wrapper-skeleton-vs-emitted-code"
+    if not ctx.kernel_report.get("K16", {}).get("ok"):
+        ctx.correspondence(name, 0, -1, "kernel K16 not translated: " + str(ctx.kernel_report.get("K16", {}).get("error")))
+        return
+    import re
+    import typing
+    from mashumaro.codecs import _builder
+    from mashumaro.codecs.basic import BasicDecoder, BasicEncoder
+    src = "from dataclasses import dataclass\n@dataclass\nclass K16P:\n    a: int\n"
+    mod = L.load_module(src, "c04_k16_probe")
+    rec = []
+    orig = _builder.CodecCodeBuilder.compile
+
+    def spy(self):
+        rec.append(self.lines.as_text())
+        return orig(self)
+
+    def classify(text, direction):
+        obj = "decoder_obj" if direction == "decode" else "encoder_obj"
+        out, expr = [], None
+        for ln in text.splitlines():
+            t = ln.strip()
+            if not t:
+                continue
+            if t == f"def {direction}(value):":
+                out.append("IDef")
+            elif t == "value = decoder(value)":
+                out.append("IPre")
+            elif t.startswith("return encoder(") and t.endswith(")"):
+                out.append("IReturnPost"); expr = t[len("return encoder("):-1]
+            elif t.startswith("return "):
+                out.append("IReturnExpr"); expr = t[len("return "):]
+            elif t == f"setattr({obj}, '{direction}', {direction})":
+                out.append("IInstallDef")
+            elif re.fullmatch(rf"setattr\({obj}, '{direction}', [^ ]+\)", t):
+                out.append("IInstallDirect")
+            else:
+                out.append("IUnknown")
+        return out, expr
+
+    cases, descr = [], []
+    _builder.CodecCodeBuilder.compile = spy
+    try:
+        for direction, ctor, kwname in (("decode", BasicDecoder, "pre_decoder_func"), ("encode", BasicEncoder, "post_encoder_func")):
+            for shape in (mod.K16P, typing.List[int], typing.Optional[mod.K16P], int):
+                for codec in (None, L.ident):
+                    rec.clear()
+                    ctor(shape, **{kwname: codec})
+                    got, expr = classify(rec[-1], direction)
+                    if "IUnknown" in got:
+                        b_m = "false"
+                    elif got == ["IInstallDirect"]:
+                        b_m = "true"
+                    else:
+                        b_m = "true" if (expr is not None and _builder.CALL_EXPR.match(expr)) else "false"
+                    cases.append(f"({'true' if direction == 'decode' else 'false'}, {'true' if codec else 'false'}, {b_m}, [{'; '.join(g if g != 'IUnknown' else 'IDef; IDef; IDef; IDef; IDef; IDef' for g in got)}])")
+                    descr.append((direction, str(shape), bool(codec), b_m, got))
+    finally:
+        _builder.CodecCodeBuilder.compile = orig
+        L.unload_module("c04_k16_probe")
+    okf = ("fun (c: bool * bool * bool * list cinstr) => match c with (dec, b_codec, b_m, got) => "
+           "prog_eqb (if dec then decode_prog b_codec b_m else encode_prog b_codec b_m) got end")
+    bad, log = vlib.coq_bad_idx("c04_k16", "CodecWrap", "From VerifGen Require Import K16.", "", cases, okf,
+                                "bool * bool * bool * list cinstr", shard=400, needs=["theories/CodecWrapProofs.vo"])
+    ctx.count(n=len(cases))
+    if bad is None:
+        ctx.correspondence(name, len(cases), -1, log)
+        ctx.not_shown("translation validation K16", log)
+    else:
+        ctx.correspondence(name, len(cases), len(bad), str([descr[i] for i in bad[:6]]))
+        if bad:
+            ctx.not_shown("translation validation K16", str([descr[i] for i in bad[:6]]))
+
+
 def names_oracle(ctx: vlib.Ctx):
     """Direct check of the method-name clause on the real classes: one class carrying every format mixin
     gets one distinct generated method per (format, direction) and none is overwritten."""
@@ -690,21 +766,24 @@ def run(ctx: vlib.Ctx):
                                         "C04_method_table_no_overwrite"], kernels=["K11"])
     ctx.theorems("props/C04_dialects.vo", ["C04_merge_strategies_is_model_clause", "C04_merge_keeps_format_omit_none"],
                  kernels=["K2", "K13"])
-    ctx.checker_cmd = (f"make -C {vlib.COQ} props/C04_formats.vo props/C04_names.vo props/C04_dialects.vo "
-                       "(coqc 8.16.1, full .vo build); thorough: coqchk -o on the three files")
+    ctx.theorems("props/C04_codec.vo", ["C04_codec_decode_is_unpack_after_predecoder",
+                                        "C04_codec_encode_is_postencoder_after_pack"], kernels=["K16"])
+    ctx.checker_cmd = (f"make -C {vlib.COQ} props/C04_formats.vo props/C04_names.vo props/C04_dialects.vo props/C04_codec.vo "
+                       "(coqc 8.16.1, full .vo build); thorough: coqchk -o on the four files")
     if not ctx.quick():     # second opinion on the compiled proofs
         rc, log, _ = vlib.run(["timeout", "900", "coqchk", "-o", "-silent", "-Q", "theories", "Verif", "-Q", "gen", "VerifGen",
                                "-Q", "props", "VerifProps", "VerifProps.C04_formats", "VerifProps.C04_names",
-                               "VerifProps.C04_dialects"], cwd=vlib.COQ, timeout=930)
+                               "VerifProps.C04_dialects", "VerifProps.C04_codec"], cwd=vlib.COQ, timeout=930)
         import re as _re
         m = _re.search(r"\* Axioms:\s*(.*?)\n\s*\n", log, _re.S)
         axioms = " ".join(m.group(1).split()) if m else "(summary not found)"
         ok = rc == 0 and axioms == "<none>"
-        ctx.obligation("coqchk -o VerifProps.C04_formats C04_names C04_dialects", ok, f"Axioms: {axioms} | " + log[-300:])
+        ctx.obligation("coqchk -o VerifProps.C04_formats C04_names C04_dialects C04_codec", ok, f"Axioms: {axioms} | " + log[-300:])
         ctx.trusted.append(f"coqchk -o on the C04 props files: Axioms: {axioms}")
         if not ok:
             ctx.not_shown("coqchk on the C04 props", log[-1000:])
     k11_validation(ctx)
+    k16_validation(ctx)
     correspondence(ctx)
     broken = bool(ctx.unshown)
     names_oracle(ctx)
